@@ -484,8 +484,13 @@ func (g *c09SrvGen) sectionAPI() verifh.Section {
 			pf = append(pf, one)
 		}
 		secret := ""
+		dead := false // the call panics: none of its mounts exists
 		addOpt := func() {
 			switch x := r.Intn(100); {
+			case x < 2:
+				// validateSecret: a secret shorter than 8 bytes (or empty) panics; the call registers nothing
+				opts = append(opts, r.PickS("o=jwt=short", "o=jwt=", "o=jwt=7bytes-", "o=jwtt=short,secret-aaaa"))
+				dead = true
 			case x < 14:
 				secret = r.PickS("secret-aaaa", "secret-bbbb")
 				if r.Chance(1, 3) {
@@ -536,6 +541,7 @@ func (g *c09SrvGen) sectionAPI() verifh.Section {
 			one, txt := mkRoutes(1)
 			ops = append(ops, fmt.Sprintf("addone %s %s", txt, strings.Join(opts, " ")))
 			mounts = append(mounts, mount{one[0].m, append(append([]string{}, ptoks...), one[0].toks...), secret})
+			_ = dead // (a dead mount is still probed: the requests must find nothing there)
 			continue
 		}
 		// favour re-using a slice that was added before
@@ -971,7 +977,9 @@ func TestVerifC09Server(t *testing.T) {
 				if nmw > 0 {
 					rs = WithMiddlewares(middlewares(nmw), rs...)
 				}
-				srv.AddRoutes(rs, ros...)
+				if c09SrvPanics(func() { srv.AddRoutes(rs, ros...) }) {
+					return "panic:secret " + listing()
+				}
 				return listing()
 			case "addone":
 				build()
@@ -990,7 +998,9 @@ func TestVerifC09Server(t *testing.T) {
 				if nmw > 0 {
 					*one = WithMiddlewares(middlewares(nmw), *one)[0]
 				}
-				srv.AddRoute(*one, ros...)
+				if c09SrvPanics(func() { srv.AddRoute(*one, ros...) }) {
+					return "panic:secret " + listing()
+				}
 				return listing()
 			case "bind":
 				build()
@@ -1063,6 +1073,20 @@ func c09SrvServe(h http.Handler, w http.ResponseWriter, r *http.Request) string 
 		how = ""
 	}()
 	return <-res
+}
+
+// c09SrvPanics: validateSecret panics inside the RouteOption when the secret is shorter than 8 bytes.
+func c09SrvPanics(f func()) (p bool) {
+	defer func() {
+		if v := recover(); v != nil {
+			if s, ok := v.(string); !ok || !strings.Contains(s, "secret") {
+				panic(v)
+			}
+			p = true
+		}
+	}()
+	f()
+	return false
 }
 
 func c09SrvVerdict(err error) string {
